@@ -119,20 +119,9 @@ def _cells(ctx, prog):
                 if atoms != {("read", fld)}:
                     bad.append("cell (pure=%s,long=%s) reads %s, expected %s" % (k[0], k[1], sorted(atoms), fld))
             else:
-                want = {("store", fld), (prim, fld, f.param_name(2))}
+                want = {("store", fld), (prim, fld, f.param_name(2)), ("on-failure", "err")}
                 if atoms != want:
                     bad.append("cell (pure=%s,long=%s): %s, expected %s" % (k[0], k[1], sorted(atoms), sorted(want)))
-        if prim is not None:
-            # failure propagated: the stored value is a `?` of the checked primitive; an Err exit exists
-            prop = True
-            for p in H.paths(f):
-                if p["ret"] is None or classify_result(p["ret"]) == "err":
-                    continue
-                for s in H.stores_on_path(f, p["blocks"], root_re=r"."):
-                    if re.search(r"_token_balance$", s["dest"]) and s["value"].k != "try":
-                        prop = False
-            if not prop or not f.err_exit_blocks():
-                bad.append("overflow/underflow of the checked primitive is not propagated with `?`")
         ctx.ob("record-cells:" + nm, not bad, "%s: %s%s" % (nm, {"(pure=%s,long=%s)" % k: sorted(v) if v else None for k, v in full.items()},
                                                            "; BAD: " + "; ".join(bad) if bad else ""), where=f.where())
 
